@@ -234,6 +234,9 @@ def render(fns):
         else:
             w(macro)
             w(f"pub {asy}fn {ident}({params}) -> {rty} {body}")
+        # a parameter written as a destructuring pattern is passed a plain value by the caller
+        def local(n):
+            return n if n.isidentifier() else "p_" + "".join(c for c in n if c.isalnum())
         # caller: builds the arguments of tuple j, the expected key, calls the function
         def prelude():
             parts = []
@@ -241,6 +244,7 @@ def render(fns):
                 w(f"    let {'mut ' if recv == '&mut self' else ''}r = R{i} {{ id: (j % 2) as u32 }};")
                 parts.append('format!("{:?}", r)')
             for n, t, fn in args:
+                n = local(n)
                 w(f"    let {n}: {t.replace('&str', 'String')} = rt::{fn}(j){'.to_string()' if t == '&str' else ''};")
                 parts.append(f'format!("{{:?}}", {n})')
             w("    let parts: Vec<String> = vec![" + ", ".join(parts) + "];")
@@ -251,7 +255,7 @@ def render(fns):
         w("}")
         w(f"pub fn call_{i}(j: usize) -> (String, String) {{")
         prelude()
-        callargs = ", ".join((f"&{n}" if t == "&str" else n) for n, t, _ in args)
+        callargs = ", ".join((f"&{local(n)}" if t == "&str" else local(n)) for n, t, _ in args)
         call = (f"r.{ident}({callargs})" if recv else f"{ident}({callargs})")
         if f["is_async"]:
             call = f"rt::block_on({call})"
